@@ -28,10 +28,16 @@
                                                               arbitrary matrices: C07_missing_pair_refuses under Nodup, which
                                                               C07_pipeline_wellformed discharges for everything calculate/concat can build;
                                                               C07_count_only_witness shows the hypothesis is needed for hand-made objects
+  4b. save / load in the model ............................... C07_save_load_identity (CDM.load (CDM.save m) = m for every m)
+  Regression (not a clause): S5-C07 int8 index storage ...... C07_S5_int8_counterexample (witness + "every size >= 129 loses an index")
+  Regression (not a clause): S7-C07 chunk bounds in floating point: NOT expressible without a float model; the theorems are about
+      the translated integer arithmetic (C07_contiguous / C07_balanced), a float rewrite makes the translator refuse (tie) and the
+      partition oracle finds the concrete input
   Not modelled (optional storage-level refinement not done): the numpy storage arrays / _expand_storage; see props/C07.json note.
 -/
 import Batchie.Lemmas.ChunksAssemble
 import Batchie.Lemmas.ChunksMetric
+import Batchie.Lemmas.ChunksSaveLoad
 
 namespace Batchie.Props.C07
 open Batchie.Chunks Batchie.Proto
@@ -271,6 +277,41 @@ theorem C07_count_only_witness :
     let R : CDM Int := { size := 3, entries := [(1, 0, 5), (1, 0, 5), (2, 0, 7)] }
     (2, 1) ∈ lowerTri 3 ∧ (2, 1) ∉ R.keys ∧ R.isComplete = true := by
   decide
+
+/-! ## save / load (seeded change S5-C07) -/
+
+/-- **The model's save / load is the identity** on every matrix -- every size, every index list, every value list (S5-C07,
+    positive half; that h5py stores what it is given is the assumption the harness exercises at sizes 127..257). -/
+theorem C07_save_load_identity {α : Type} (m : CDM α) :
+    CDM.load (CDM.save m) = m ∧ (CDM.load (CDM.save m)).keys = m.keys ∧ (CDM.save m).size = m.size :=
+  ⟨load_save m, by rw [load_save], rfl⟩
+
+/-- **Regression (S5-C07, not a clause):** indices stored as signed bytes whenever `size ≤ 256`.  A signed byte keeps the
+    indices below 128 and wraps 128..255 to negatives (`128 ↦ -128`), so for EVERY size `129 ≤ n ≤ 256` some index `< n` does not
+    survive; on the witness (size 129, one entry at row 128) the loaded matrix is another matrix, and its pair is not in the lower
+    triangle any more (combining such files raises "Indices must be lower triangular", a single file densifies misplaced). -/
+theorem C07_S5_int8_counterexample :
+    toInt8 128 = -128 ∧
+    (∀ x : Int, 0 ≤ x → x < 128 → toInt8 x = x) ∧
+    (∀ n : Int, 129 ≤ n → ∃ i : Int, 0 ≤ i ∧ i < n ∧ toInt8 i ≠ i) ∧
+    (let w : CDM Int := { size := 129, entries := [(128, 0, 5)] }
+     CDM.load (CDM.saveInt8 w) = { size := 129, entries := [(-128, 0, 5)] } ∧
+     (CDM.load (CDM.saveInt8 w)).keys ≠ w.keys ∧
+     (∀ p ∈ (CDM.load (CDM.saveInt8 w)).keys, p ∉ lowerTri 129) ∧
+     (w.entries.foldlM (fun (acc : CDM Int) e => acc.addValue e.1 e.2.1 e.2.2) (CDM.empty 129)).toOption.isSome = true ∧
+     ((CDM.load (CDM.saveInt8 w)).entries.foldlM (fun (acc : CDM Int) e => acc.addValue e.1 e.2.1 e.2.2) (CDM.empty 129)).toOption = none) := by
+  refine ⟨by decide, toInt8_small, ?_, by rfl, by decide, ?_, by decide, by decide⟩
+  · intro n hn
+    exact ⟨128, by omega, by omega, by decide⟩
+  · intro p hp
+    have : p = (-128, 0) := by
+      have : (CDM.load (CDM.saveInt8 ({ size := 129, entries := [(128, 0, 5)] } : CDM Int))).keys = [(-128, 0)] := by decide
+      rw [this] at hp
+      simpa using hp
+    subst this
+    intro h
+    have := (mem_lowerTri).1 h
+    omega
 
 /-! ## the metric -/
 
